@@ -7,7 +7,7 @@ META = {
     "driver_id": "Edit",
     "coq_targets": ["Props/C08.vo", "Extract/Extract_Edit.vo"],
     "technique": 'Coq invariant / refinement proofs over the executable edit-machine model + step-by-step differential correspondence of the extracted model with the implementation + direct oracle on the implementation',
-    "level_text": "Proved in Coq about the executable model (Props/C08.v, all closed under the global context), with regionprops values symbolic (VRp mask = the value computed from this mask and the scale): C08_W_fresh_split (W_fresh = node half + edge half); the node half rp_fresh (for every node and every active regionprops key the stored value is that of the node's current mask in its own time frame) is preserved by each basic action under its documented precondition: C08_fresh_add_node (the new node is measured on the mask just written, overriding a caller-supplied value), C08_fresh_upd_seg (the repainted node is re-measured on its new non-empty mask; other masks untouched), C08_fresh_other (AddEdge, DeleteEdge, UpdateNodeAttrs - protected keys cannot be written -, UpdateTrackIDs, DeleteNode with own or given pixels). Not proved: the numeric values skimage returns (symbolic in the model; the harness compares them with numpy / fresh regionprops references on every run). C08_run_edge_calls (every state reachable from a well-formed state by any sequence, of any length, of edge-level calls - add / delete edge with and without force, swap, track queries, fresh ids - satisfies the complete invariant WF: dictionaries, forest, track ids, lineage ids, lookups, label/node correspondence, fresh features; induction over the call list); C08_run_node_calls (the same reachability statement with UserAddNode and UserDeleteNode included, accepted or refused, each UserAddNode respecting its documented preconditions - integer time / track id, no caller-supplied lineage id, and with a segmentation a non-zero id and background pixels of its own frame; Proofs/EditWFNodeExample.v shows three accepted calls outside these preconditions that break the invariant); C08_sessions (from a well-formed state with an empty history, EVERY state reached along ANY sequence - of any length - of calls of the WHOLE public interface of the edit machine - edge, swap, node, attribute and stroke edits, undo, redo, queries - accepted or refused, satisfies the complete invariant WF; hypotheses: three configuration facts no call changes, and the documented per-call preconditions of UserAddNode / node calls without segmentation at the moment each call is made; strokes, edge calls, attribute updates, undo and redo have none); C08_paint and C08_run_paint_calls (every accepted stroke yields a well-formed state; every refused stroke too, the rolled-back one included); C08_user_actions_are_generated (the seven composite user actions of the model equal, for all arguments, the code translated on every run from the current user_actions/*.py); C08_sessions_from_construction (the start state need not be assumed well formed: for every valid raw solution - forest, labels and nodes one-to-one, fresh feature table, true oracle partitions - the state constructed by enabling the core features with recomputation is well formed, so every session over the whole interface from it stays well formed). C08_run_edge_attr_calls adds UserUpdateNodeAttrs (a managed feature cannot be overwritten by hand). C08_core_is_generated: one level further down, the queries, the node-id counter, Tracks.undo / redo and the seven basic actions with their inverses of the model equal the code translated on every run from solution_tracks.py, tracks.py, _track_annotator.py and actions/*.py (Gen/Core_gen.v; statement in Proofs/CoreTieBundle.v). Source tie: the regionprops and edge annotators of the model (incremental update and bulk compute) equal, for all arguments, the code translated on every run from _regionprops_annotator.py, _edge_annotator.py and _compute_ious.py (Gen/Annotators_gen.v; Proofs/AnnotatorsTie.v, 25 closed theorems); this closes the chain from the user actions through the basic actions down to the annotators.",
+    "level_text": "Proved in Coq about the executable model (Props/C08.v, all closed under the global context), with regionprops values symbolic (VRp mask = the value computed from this mask and the scale): C08_W_fresh_split (W_fresh = node half + edge half); the node half rp_fresh (for every node and every active regionprops key the stored value is that of the node's current mask in its own time frame) is preserved by each basic action under its documented precondition: C08_fresh_add_node (the new node is measured on the mask just written, overriding a caller-supplied value), C08_fresh_upd_seg (the repainted node is re-measured on its new non-empty mask; other masks untouched), C08_fresh_other (AddEdge, DeleteEdge, UpdateNodeAttrs - protected keys cannot be written -, UpdateTrackIDs, DeleteNode with own or given pixels). Not proved: the numeric values skimage returns (symbolic in the model; the harness compares them with numpy / fresh regionprops references on every run). 3D shape features (surface area, sphericity, ellipsoid radii), which the edit machine leaves out because its 3x3x3 frames are below marching_cubes' domain, are checked on the implementation alone by shape3d_scenarios (7x10x10 frames, cells inside one another's bounding boxes, strokes, undo / redo, disable / enable; references: numpy voxel counts, the skimage mesh of the lone mask, the closed sphericity formula). C08_run_edge_calls (every state reachable from a well-formed state by any sequence, of any length, of edge-level calls - add / delete edge with and without force, swap, track queries, fresh ids - satisfies the complete invariant WF: dictionaries, forest, track ids, lineage ids, lookups, label/node correspondence, fresh features; induction over the call list); C08_run_node_calls (the same reachability statement with UserAddNode and UserDeleteNode included, accepted or refused, each UserAddNode respecting its documented preconditions - integer time / track id, no caller-supplied lineage id, and with a segmentation a non-zero id and background pixels of its own frame; Proofs/EditWFNodeExample.v shows three accepted calls outside these preconditions that break the invariant); C08_sessions (from a well-formed state with an empty history, EVERY state reached along ANY sequence - of any length - of calls of the WHOLE public interface of the edit machine - edge, swap, node, attribute and stroke edits, undo, redo, queries - accepted or refused, satisfies the complete invariant WF; hypotheses: three configuration facts no call changes, and the documented per-call preconditions of UserAddNode / node calls without segmentation at the moment each call is made; strokes, edge calls, attribute updates, undo and redo have none); C08_paint and C08_run_paint_calls (every accepted stroke yields a well-formed state; every refused stroke too, the rolled-back one included); C08_user_actions_are_generated (the seven composite user actions of the model equal, for all arguments, the code translated on every run from the current user_actions/*.py); C08_sessions_from_construction (the start state need not be assumed well formed: for every valid raw solution - forest, labels and nodes one-to-one, fresh feature table, true oracle partitions - the state constructed by enabling the core features with recomputation is well formed, so every session over the whole interface from it stays well formed). C08_run_edge_attr_calls adds UserUpdateNodeAttrs (a managed feature cannot be overwritten by hand). C08_core_is_generated: one level further down, the queries, the node-id counter, Tracks.undo / redo and the seven basic actions with their inverses of the model equal the code translated on every run from solution_tracks.py, tracks.py, _track_annotator.py and actions/*.py (Gen/Core_gen.v; statement in Proofs/CoreTieBundle.v). Source tie: the regionprops and edge annotators of the model (incremental update and bulk compute) equal, for all arguments, the code translated on every run from _regionprops_annotator.py, _edge_annotator.py and _compute_ious.py (Gen/Annotators_gen.v; Proofs/AnnotatorsTie.v, 25 closed theorems); this closes the chain from the user actions through the basic actions down to the annotators. C08_sessions_from_any_construction: the same for a graph that arrives with managed features of its own - the constructor as the code runs it (Model/EditCtor.v construct_any: the id lookups filled by a scan of the supplied ids, every core feature the first node carries activated at face value, every other one computed) yields a well-formed state whenever the detected features are valid on all nodes (supplied_ok), for every combination of supplied and computed features, and every session from it stays well formed (Proofs/EditCtor.v; EditCtorExample.v shows that invalid supplied ids break it); tie: constructor correspondence on every generated raw solution (harness/ctor.py).",
     "level_note": 'Trusted: Coq kernel, extraction (ExtrOcamlBasic only), OCaml driver drv_Edit.ml, Python harness and oracles. Modelled, not verified: networkx DiGraph dict semantics, numpy indexing, skimage regionprops (symbolic: value = function of key, mask, spacing), psygnal. The theorems are about the hand-written model coq/Model/Edit.v; the tie to /repo is the step-by-step differential execution of the extracted model against the implementation on every run. Tied to the source in a second way: the history mechanism (action_history.py) and the seven composite user actions (user_actions/*.py) are re-translated on every run by fail-closed translators (harness/translate_history.py, translate_user_actions.py; closed idiom tables; runtime combinators Model/PyRt.v) and proved equal to the hand-written model for all arguments (Proofs/HistoryTie.v, UserActionsTie.v); trusted there: the idiom tables and combinators, and the stated conventions (get_time / successors on a missing node do not raise, StopIteration reported as KeyError, feature keys never None).',
     "design_ref": "DESIGN.md section 9 (C08)",
     "assumptions": ['the caller does not pass a lineage id to UserAddNode (outside its documented domain)', 'track_id and lineage_id features stay enabled during editing sessions', 'labels/ids are positive; times are frame indices within the array'],
@@ -113,12 +113,128 @@ def config_scenarios(ctx, n):
     return out, stats
 
 
+def shape3d_scenarios(ctx, n):
+    """implementation-only oracle for the 3D shape features the edit machine leaves out (its 3x3x3 frames are
+    below marching_cubes' domain): 3D+t, frames 7x10x10, L-shaped cells with another cell inside their bounding
+    box, isotropic and anisotropic scale, area / perimeter (surface area) / circularity (sphericity) /
+    ellipse_axis_radii enabled in bulk; strokes with undo / redo and disable / enable in between. After every
+    step, for every node: area = voxel count x voxel size (numpy), perimeter = skimage mesh surface of the
+    node's mask alone, circularity = the closed sphericity formula from these two, ellipse radii = those of the
+    node's mask alone in an empty frame."""
+    import math
+
+    import networkx as nx
+    import numpy as np
+    from funtracks.annotators._regionprops_extended import regionprops_extended
+    from funtracks.data_model import SolutionTracks
+    from funtracks.user_actions import UserUpdateSegmentation
+    from skimage.measure import marching_cubes, mesh_surface_area
+
+    rng = ctx.rng
+    out, stats = [], {"shape3d_scenarios": 0, "shape3d_steps": 0, "shape3d_bbox_overlaps": 0}
+    KEYS = ["area", "perimeter", "circularity", "ellipse_axis_radii"]
+
+    def reference(mask, sp):
+        cnt = int(mask.sum())
+        vol = cnt * float(np.prod(sp))
+        verts, faces, _, _ = marching_cubes(mask, level=0.5, spacing=tuple(sp))
+        surf = float(mesh_surface_area(verts, faces))
+        r = (3 / 4 / math.pi * vol) ** (1 / 3)
+        alone = regionprops_extended(mask.astype(np.int64), spacing=tuple(sp))[0]
+        return {"area": vol, "perimeter": surf, "circularity": 4 * math.pi * r * r / surf,
+                "ellipse_axis_radii": [float(x) for x in alone.axes]}
+
+    for k in range(n):
+        sp = rng.choice([[1.0, 1.0, 1.0], [2.0, 1.0, 0.5], [0.5, 0.5, 0.5], [1.0, 3.0, 1.0]])
+        scale = [1.0] + sp
+        T = 3
+        seg = np.zeros((T, 7, 10, 10), dtype=rng.choice([np.uint16, np.int32, np.int64]))
+        g = nx.DiGraph()
+        nid = 1
+        prev = None
+        for tm in range(T):
+            z0 = rng.randint(0, 2)
+            zs = slice(z0, z0 + rng.randint(3, 4))
+            a, w = rng.randint(0, 1), rng.randint(2, 3)
+            ell = nid
+            seg[tm, zs, a:a + 8, a:a + w] = ell          # an L: two arms along y and x
+            seg[tm, zs, a:a + w, a:a + 8] = ell
+            g.add_node(ell, time=tm)
+            if prev is not None and rng.random() < 0.8:
+                g.add_edge(prev, ell)
+            prev = ell
+            nid += rng.randint(1, 3)
+            if rng.random() < 0.8:                        # a block in the free corner of the L: inside its bounding box
+                b0 = a + w + rng.randint(1, 2)
+                seg[tm, zs.start:zs.start + 2, b0:b0 + 3, b0:b0 + 3] = nid
+                g.add_node(nid, time=tm)
+                stats["shape3d_bbox_overlaps"] += 1
+                nid += rng.randint(1, 3)
+        tr = SolutionTracks(g, segmentation=seg, time_attr="time", scale=scale, ndim=4)
+        keys = [x for x in KEYS if rng.random() < 0.8] or ["circularity"]
+        tr.enable_features(keys)
+        stats["shape3d_scenarios"] += 1
+        desc = {"scenario": k, "scale": scale, "features": keys, "nodes": sorted(int(x) for x in g.nodes)}
+
+        def check(label):
+            s_ = np.asarray(tr.segmentation)
+            for n_ in tr.graph.nodes:
+                ref = reference(s_[tr.get_time(n_)] == n_, sp)
+                for key in keys:
+                    st = tr.graph.nodes[n_].get(key)
+                    if st is None or not np.allclose(np.asarray(st, dtype=float), np.asarray(ref[key], dtype=float), rtol=1e-9, atol=1e-9):
+                        return "after %s: node %d stores %s = %s, its own mask gives %s" % (label, n_, key, st, ref[key])
+            return None
+
+        def stroke(value, tm, sl):
+            arr = np.asarray(tr.segmentation)
+            region = np.zeros(arr.shape[1:], dtype=bool)
+            region[sl] = True
+            groups = []
+            for ov in np.unique(arr[tm][region]):
+                if value == ov:
+                    continue
+                idx = np.nonzero(region & (arr[tm] == ov))
+                groups.append(((np.full(len(idx[0]), tm), *idx), int(ov)))
+            if not groups:
+                return
+            for px, _ in groups:
+                tr.set_pixels(px, value)
+            UserUpdateSegmentation(tr, value, groups, tr.get_next_track_id())
+
+        tm = rng.randrange(T)
+        new = nid + 5
+        steps = [("a new cell inside the bounding box of the L", lambda: stroke(new, tm, (slice(4, 6), slice(7, 9), slice(4, 6)))),
+                 ("disable / enable", lambda: (tr.disable_features(keys), tr.enable_features(keys))),
+                 ("undo", tr.undo), ("redo", tr.redo),
+                 ("erase a slab of frame %d" % tm, lambda: stroke(0, tm, (slice(0, 7), slice(0, 10), slice(0, 1)))),
+                 ("undo", tr.undo), ("undo", tr.undo), ("redo", tr.redo)]
+        label = "construction"
+        try:
+            bad = check(label)
+            for label, fn in steps:
+                if bad:
+                    break
+                fn()
+                stats["shape3d_steps"] += 1
+                bad = check(label)
+        except Exception as e:  # noqa: BLE001
+            bad = "%s raised %s: %s" % (label, type(e).__name__, str(e)[:100])
+        if bad:
+            out.append({"what": "3D shape features %s: %s" % (keys, bad), "input": desc, "signature": "C08:shape3d"})
+    return out, stats
+
+
 def run(ctx):
     res = G.run_property(ctx, "C08", n_quick=400, n_thorough=6000, seg_p=1.0, toggles=0.12)
     viol, stats = config_scenarios(ctx, 24 if ctx.quick() else 240)
     res["violations"] = list(res.get("violations", [])) + viol
     res.setdefault("stats", {}).update(stats)
     res["evaluations"] = res.get("evaluations", 0) + stats["config_steps"]
+    viol3, stats3 = shape3d_scenarios(ctx, 30 if ctx.quick() else 400)
+    res["violations"] += viol3
+    res["stats"].update(stats3)
+    res["evaluations"] += stats3["shape3d_steps"]
     return res
 
 
